@@ -33,15 +33,15 @@ NonIncreasing(sq) == \A x \in 1..(Len(sq) - 1) : sq[x] >= sq[x + 1]
 RunClauses(ev) ==
   LET S == DecState(ev.st)  I0 == Rng(ev.I0)  r == ev.r  N == Cardinality(S.nodes) IN
   {<<"input_in_scope", I0 \subseteq S.nodes /\ ev.T >= 1>>,
-   <<"one_entry_per_time", Len(ev.out) = ev.T>>,
+   <<"model_one_entry_per_time", Len(ev.out) = ev.T>>,
    <<"values_are_node_fractions", ev.integral>>,
    <<"fractions_in_unit_interval", \A x \in DOMAIN ev.out : 0 <= ev.out[x] /\ ev.out[x] <= N>>,
    <<"starts_at_initial_fraction", Len(ev.out) >= 1 => ev.out[1] = Cardinality(I0)>>,
    <<"never_decreasing_without_recovery", r.mu = "0" => NonDecreasing(ev.out)>>,
    <<"never_increasing_without_infection", (r.beta = "0" /\ r.betaD = "0") => NonIncreasing(ev.out)>>,
    <<"deterministic_regime_trajectory",
-       (Deterministic(r) /\ ev.integral /\ ev.T >= 1) => ev.out = DetTrajectory(S, I0, r, ev.T)>>,
-   <<"model_counts_reachable", (ev.feas /\ ev.integral /\ Len(ev.out) = ev.T) => CountsFeasible(S, I0, r, ev.out)>>}
+       (Deterministic(r) /\ ev.integral /\ Len(ev.out) >= 1) => ev.out = DetTrajectory(S, I0, r, Len(ev.out))>>,
+   <<"model_counts_reachable", (ev.feas /\ ev.integral) => CountsFeasible(S, I0, r, ev.out)>>}
 
 SweepClauses(ev) ==
   LET J == Rng(ev.I) IN
